@@ -29,7 +29,7 @@ structure TripInv (look : Nat → List CDef) (ports : List CPort) (insts : List 
   hports : NoClash (ports.map (·.data))
   hshape : ∀ p ∈ ports, PortShapeB p = true
   hinsts : NoClash (insts.map (·.data))
-  hrefs : ∀ i ∈ insts, ∀ r, i.ref = some r → RefIn look r
+  hrefs : ∀ i ∈ insts, ∃ r, i.ref = some r ∧ RefIn look r
   hcabs : CabsInv look ports insts cables
 
 def CellInv (sc : Scope) (st : CellSt) : Prop := TripInv (defsOfLib sc) st.ports st.insts st.cables
@@ -62,7 +62,7 @@ theorem parseViewRef_ref (sc : Scope) (m : Meta) (ys : List SExp) (r : Nat × Na
   · cases h
 
 theorem parseInstance_ref (sc : Scope) (ys : List SExp) (i : CInst) (h : parseInstance sc ys = .ok i) :
-    ∀ r, i.ref = some r → RefIn (defsOfLib sc) r := by
+    ∃ r, i.ref = some r ∧ RefIn (defsOfLib sc) r := by
   unfold parseInstance at h
   simp only [bind, Except.bind] at h
   split at h
@@ -76,9 +76,7 @@ theorem parseInstance_ref (sc : Scope) (ys : List SExp) (i : CInst) (h : parseIn
         · cases h
         · simp only [pure, Except.pure, Except.ok.injEq] at h
           subst h
-          intro r hr
-          simp only at hr
-          -- where the reference came from
+          -- where the reference came from: an instance without viewRef is rejected
           split at hv
           · split at hv
             · try simp only [bind, Except.bind] at hv
@@ -87,13 +85,9 @@ theorem parseInstance_ref (sc : Scope) (ys : List SExp) (i : CInst) (h : parseIn
               · rename_i r0 hr0
                 simp only [pure, Except.pure, Except.ok.injEq] at hv
                 subst hv
-                simp only [Option.some.injEq] at hr
-                subst hr
-                exact parseViewRef_ref sc _ _ _ hr0
+                exact ⟨r0, rfl, parseViewRef_ref sc _ _ _ hr0⟩
             · split at hv <;> cases hv
-          · simp only [pure, Except.pure, Except.ok.injEq] at hv
-            subst hv
-            cases hr
+          · cases hv
 
 /-! ### one item of `contents` -/
 
@@ -113,12 +107,12 @@ theorem contentsItem_inv (sc : Scope) (st st' : CellSt) (ys : List SExp) (h : Ce
         subst hs
         refine ⟨h.hports, h.hshape, ?_, ?_, ?_⟩
         · simpa using addRetry_noClash _ _ _ h.hinsts hd
-        · intro j hj r hr
+        · intro j hj
           rcases List.mem_append.mp hj with h1 | h1
-          · exact h.hrefs j h1 r hr
+          · exact h.hrefs j h1
           · simp only [List.mem_singleton] at h1
             subst h1
-            exact parseInstance_ref sc ys i hi r hr
+            exact parseInstance_ref sc ys i hi
         · have := cabsInv_mono (defsOfLib sc) st.ports [] st.insts [{ i with data := d }] st.cables h.hcabs
           simpa using this
   · split at hs
